@@ -244,6 +244,7 @@ class _ParseVisitor(visitor.BaseVisitor):
           and IGNORE_RE.match(comment.data)
       )
 
+    group = None
     for lineno, structured_comments in self._raw_structured_comments.items():
       if lineno > line_range.end_line:
         # _raw_structured_comments is ordered by line number, so we can abort as
@@ -251,9 +252,12 @@ class _ParseVisitor(visitor.BaseVisitor):
         break
       if lineno < line_range.start_line:
         continue
-      group = self._add_structured_comment_group(
-          line_range.start_line, line_range.end_line, cls
-      )
+      if group is None or cls is LineRange:
+        # A Call group is created once per node: creating it again for every
+        # comment line would drop the comments collected from earlier lines.
+        group = self._add_structured_comment_group(
+            line_range.start_line, line_range.end_line, cls
+        )
       # Comments do not need to be added to LineRange groups because we already
       # did so in __init__.
       if cls is not LineRange:
